@@ -140,6 +140,15 @@ def run(ctx):
                 launches = 1 if tg.startswith("cpu") else (n if tg == "opencl" else int(-(-n // k["B"])) * k["B"])
                 if [1 if m > 0 else 0 for m in o["marks"]] != ([w if launches > 0 else 0 for w in want_marks]):
                     note("C16/context-restricted-line-active-in-the-wrong-context/%s" % tg, "marks %s for n=%d" % (o["marks"], n), {"kernel": k, "target": tg, "n": n})
+        for key, wantm, base in (("cpu_openmp/set-later", [1, 0, 0, 0, 1], "cpu_openmp"), ("cpu_serial/set-later", [1, 0, 0, 1, 0], "cpu_serial")):
+            rr2 = r.get(key)
+            if rr2 is None: continue
+            if "exc" in rr2:
+                note("C16/%s-does-not-run:%s" % (key, rr2["exc"]), rr2.get("msg", "")[-300:], {"kernel": k, "target": key}); continue
+            for n in k["ns"]:
+                o = rr2[str(n)]
+                if [1 if m > 0 else 0 for m in o["marks"]] != wantm or o["log"] != r[base].get(str(n), {}).get("log", o["log"]):
+                    note("C16/context-restricted-line-active-in-the-wrong-context/%s" % key, "marks %s for n=%d (omp_num_threads changed after the context was made)" % (o["marks"], n), {"kernel": k, "target": base, "n": n})
         rr1 = r.get("cpu_openmp/1-thread")
         if rr1 is not None:
             if "exc" in rr1:
